@@ -1,40 +1,67 @@
-"""C18 configuration for ./check (see lib/props.py). Percent-encoding and Base64 halves; the SHA-1 and
-HTTP-date halves add their modules to `modules` when merged."""
+"""C18 configuration for ./check (see lib/props.py): percent-encoding, Base64, SHA-1, HTTP dates."""
 
-CFG = {
-    "modules": ["HumphreyModel.Props.C18Percent", "HumphreyModel.Props.C18Base64"],
-    "rule": "inputs fed to humphrey::percent::{percent_encode, percent_decode} and to humphrey-ws "
-            "util::base64::{encode, decode} (through humphrey_ws::verif) and to the Lean models. Percent: every "
-            "byte and byte pair (encode, and decode of the encoding), decode of every %X / %XY over ASCII, all "
-            "strings <=4 over {%,0,9,a,F,g,+,space,e-acute}, random byte strings and random texts with good and "
-            "damaged escapes. Base64: every 1- and 2-byte input, 3-byte groups (quick: every value of each byte "
-            "x 40 random completions + 150k random; thorough: all 2^24 judged in Rust against a bit-level "
-            "reference, disagreements and a 1/128 sample through Lean), lengths 0..64, decode of every encoding "
-            "produced, decode of all 4-symbol groups over {A,B,a,z,0,9,+,/,=,*,space} alone / after / before a "
-            "full group, all shorter strings over it, all strings <=9 over {A,=,/}, every ASCII byte in every "
-            "group position, random full-alphabet groups, damaged encodings (truncated, '=' or foreign or "
-            "non-ASCII character inserted/substituted, symbol removed). Non-trivial: percent input with a "
-            "non-alphanumeric byte / text with '%'; Base64 non-empty input. Distinct = distinct case line.",
-    "exhaustive": True,
-    "violation_text": "the implementation's output differs from RFC 3986 section 2.1/2.3 (percent) or RFC 4648 "
-                      "section 4 (Base64) on this input: wrong encoding, a decoder that does not invert the "
-                      "encoder, malformed input accepted, or a panic",
-    "trusted_base": ["Spec/Percent.lean: unreserved set by ranges, upper-case hex table, relation Denotes",
-                     "Spec/Base64.lean: bit-level RFC 4648 section 4 (bits of the input regrouped by 6 / by 8, "
-                     "Table 1, '=' padding) and the predicate Shape",
-                     "Model/Base64.lean writes the Rust shifts and masks as div/mod arithmetic on naturals; the "
-                     "encoder indices and the decoder accumulation are proved equal to the shift/mask forms "
-                     "(groupIndices_eq_shift_mask, decoded_or_eq_add), u32::to_be_bytes is read as base-256 digits "
-                     "(tied to the code by the correspondence run)"],
-    "assumptions": ["decoder inputs are valid UTF-8 (Rust &str); the models are defined on all byte strings"],
-    "design_ref": "6.18",
-    "level_text": "Percent: encode_eq_spec (encoder = RFC 3986 layout), decode_encode, decode_iff_denotes (decode s = "
-                  "some b exactly when s is literals and well-formed %XX escapes denoting b), "
-                  "decode_rejects_bad_escape. Base64: encode_eq_rfc4648 (encoder = bit-level RFC 4648), "
-                  "decode_encode, decode_ok_iff (Ok(b) exactly on well-shaped text, b = bit-level decoding; hence "
-                  "decode_ok_implies_shape, decode_eq_spec, decode_err_iff), decode_never_panics. All for every "
-                  "input, no length bound; models tied to the code by the differential run.",
-    "level_note": "Trusted: Lean kernel, the two Spec files, the harness. Theorems are about the models; the Rust "
-                  "loops are covered by the correspondence run (exhaustive small scopes + random).",
-    "timeout": {"quick": 300, "thorough": 3000},
-}
+CFG = {'assumptions': ['decoder inputs are valid UTF-8 (Rust &str); the models are defined on all byte strings',
+                 'SHA-1 messages shorter than 2^61 bytes (len*8 fits usize; RFC 3174 itself requires < 2^64 bits)',
+                 'timestamps 0 ..= 253402300799 (1970-01-01T00:00:00 .. 9999-12-31T23:59:59), as in the property'],
+ 'design_ref': '6.18',
+ 'exhaustive': True,
+ 'level_note': 'Trusted: Lean kernel, the two Spec files, the harness. Theorems are about the models; the Rust loops '
+               'are covered by the correspondence run (exhaustive small scopes + random). Trusted: Lean kernel, the '
+               'two Spec files, the harness. Theorems are about the models; the Rust loops are covered by the '
+               'correspondence run.',
+ 'level_text': 'Percent: encode_eq_spec (encoder = RFC 3986 layout), decode_encode, decode_iff_denotes (decode s = '
+               'some b exactly when s is literals and well-formed %XX escapes denoting b), decode_rejects_bad_escape. '
+               'Base64: encode_eq_rfc4648 (encoder = bit-level RFC 4648), decode_encode, decode_ok_iff (Ok(b) exactly '
+               'on well-shaped text, b = bit-level decoding; hence decode_ok_implies_shape, decode_eq_spec, '
+               'decode_err_iff), decode_never_panics. All for every input, no length bound; models tied to the code by '
+               'the differential run.  ||  date_correct: for every timestamp of 1970..9999 the model of date.rs does '
+               'not panic and yields a valid Gregorian date in 1970..9999 whose days-from-civil and time of day give '
+               'back the timestamp, with the right weekday; imf_fixdate_format / date_to_string_correct: to_string is '
+               'the 29-character IMF-fixdate of those fields. sha1_eq_rfc3174: for every message below 2^61 bytes the '
+               'model of sha1.rs equals the RFC 3174 digest (pad_eq_rfc3174: bit-level padding of section 4; '
+               'schedule_eq_rfc3174: the in-place 80-word array is W(t); compress_eq_rfc3174: the round loop is the '
+               'A..E recurrence with f(t), K(t)); sha1_length. RFC test vectors are examples of both model and spec. '
+               'Models tied to the code by the day-by-day and all-lengths differential run.',
+ 'modules': ['HumphreyModel.Props.C18Percent',
+             'HumphreyModel.Props.C18Base64',
+             'HumphreyModel.Props.C18Date',
+             'HumphreyModel.Props.C18Sha1'],
+ 'rule': 'PERCENT + BASE64: inputs fed to humphrey::percent::{percent_encode, percent_decode} and to humphrey-ws '
+         'util::base64::{encode, decode} (through humphrey_ws::verif) and to the Lean models. Percent: every byte and '
+         'byte pair (encode, and decode of the encoding), decode of every %X / %XY over ASCII, all strings <=4 over '
+         '{%,0,9,a,F,g,+,space,e-acute}, random byte strings and random texts with good and damaged escapes. Base64: '
+         'every 1- and 2-byte input, 3-byte groups (quick: every value of each byte x 40 random completions + 150k '
+         'random; thorough: all 2^24 judged in Rust against a bit-level reference, disagreements and a 1/128 sample '
+         'through Lean), lengths 0..64, decode of every encoding produced, decode of all 4-symbol groups over '
+         '{A,B,a,z,0,9,+,/,=,*,space} alone / after / before a full group, all shorter strings over it, all strings '
+         '<=9 over {A,=,/}, every ASCII byte in every group position, random full-alphabet groups, damaged encodings '
+         "(truncated, '=' or foreign or non-ASCII character inserted/substituted, symbol removed). Non-trivial: "
+         "percent input with a non-alphanumeric byte / text with '%'; Base64 non-empty input. Distinct = distinct case "
+         'line.  ||  SHA-1 + DATES: SHA-1: humphrey_ws SHA1Hash::hash on every message length 0..=1100 (every padding '
+         '/ block-boundary case) x {zeros, 0xff, 0x80, counting, 2 random}, the RFC 3174 vectors, random messages up '
+         'to 64 KiB (quick) / 1 MiB (thorough), against the Lean model (proved equal to RFC 3174). Dates: '
+         'DateTime::from + to_string at 00:00:00 and 23:59:59 of every day 1970-01-01..=9999-12-31 (thorough; quick: '
+         'every day of 1970..=2400, every 5th day afterwards, and Jan 1 / Feb 28 / Feb 29 / Mar 1 / Dec 31 of every '
+         'year), every second of selected days (4 quick / 40 thorough: leap days, year and century boundaries, the '
+         '2000-03-01 anchor, 9999-12-31), random timestamps in range; each output is compared with the Lean model AND '
+         'judged by Spec/Date.lean (valid date, days-from-civil equation, weekday, IMF-fixdate string) on the '
+         "implementation's own fields; a Rust civil-from-days reference judges it a third time (histogram key "
+         'date:DIFFERS-FROM-RUST-REFERENCE). Out-of-range timestamps (negative, >= year 10000, i64 extremes) are '
+         'model-correspondence only. Non-trivial = every SHA-1 case and every in-range date case; distinct = distinct '
+         'case line.',
+ 'technique': 'Lean 4 theorems: encoders = RFC specs, decoder inverses, SHA-1 = RFC 3174, date = proleptic Gregorian '
+              'calendar; all-lengths / every-day differential correspondence',
+ 'timeout': {'quick': 300, 'thorough': 3000},
+ 'trusted_base': ['Spec/Percent.lean: unreserved set by ranges, upper-case hex table, relation Denotes',
+                  'Spec/Base64.lean: bit-level RFC 4648 section 4 (bits of the input regrouped by 6 / by 8, Table 1, '
+                  "'=' padding) and the predicate Shape",
+                  'Model/Base64.lean writes the Rust shifts and masks as div/mod arithmetic on naturals; the encoder '
+                  'indices and the decoder accumulation are proved equal to the shift/mask forms '
+                  '(groupIndices_eq_shift_mask, decoded_or_eq_add), u32::to_be_bytes is read as base-256 digits (tied '
+                  'to the code by the correspondence run)',
+                  'Spec/Date.lean: leap rule, month lengths, daysFromCivil (year recurrence proved), weekday = '
+                  '(4+days) mod 7, IMF-fixdate layout',
+                  'Spec/Sha1.lean: RFC 3174 sections 4, 5, 6.1 as functions of t (padZeros proved minimal)',
+                  'std: u32::from_be_bytes / to_be_bytes / rotate_left / wrapping_add, format! width and zero flags '
+                  '(modelled by their documented meaning)'],
+ 'violation_text': 'a home-grown primitive disagrees with its RFC on this input'}
